@@ -348,6 +348,73 @@ def r9(F, rep):
                 detail="after `cv reset` the script still reports the value left by the deleted objects", func=r.q)
 
 
+def r10(F, rep):
+    rep.rule("C20-R10", "the bound is tested before the element is touched: in every `&&` chain that contains both a subscript "
+                        "V[i] and the test `i < V.size()` on the same container and index, the test is the earlier operand "
+                        "(`while ((is >> v[i]) && (i < v.size()))` extracts into v[size] before it notices): script arguments "
+                        "with more values than the variable has components must be refused, not written past the end")
+    import re as _re
+
+    def walk(n):
+        yield n
+        for c in X.kids(n):
+            if c is not None:
+                yield from walk(c)
+
+    def conj(n, out):
+        n = X.strip(n)
+        if n["k"] == "BinaryOperator" and n.get("op") == "&&":
+            a, b = X.kids(n)
+            conj(a, out)
+            conj(b, out)
+        else:
+            out.append(n)
+
+    def nk(k):
+        return _re.sub(r"^\(?\*?\s*this\)?$|^op\*\(this\)$", "this", k.strip())
+    n = 0
+    seen = set()
+    for f in F.funcs.values():
+        if "/src/" not in f.file or f.body is None:
+            continue
+        for e in f.walk():
+            if e["k"] != "BinaryOperator" or e.get("op") != "&&":
+                continue
+            par = f.parent(e)
+            while par is not None and par["k"] in ("ParenExpr", "ImplicitCastExpr"):
+                par = f.parent(par)
+            if par is not None and par["k"] == "BinaryOperator" and par.get("op") == "&&":
+                continue
+            ops = []
+            conj(e, ops)
+            for bi, b in enumerate(ops):
+                if b["k"] != "BinaryOperator" or b.get("op") not in ("<", ">"):
+                    continue
+                l, r = [X.strip(k) for k in X.kids(b)]
+                idx, sz = (l, r) if b["op"] == "<" else (r, l)
+                if idx["k"] != "DeclRefExpr" or sz["k"] != "CXXMemberCallExpr" or X.callee_name(sz) not in ("size", "length"):
+                    continue
+                rc = X.receiver(sz)
+                vk = nk(X.key(rc, f)) if rc is not None else "this"
+                ik = X.key(idx, f)
+                for ai, a in enumerate(ops):
+                    if ai == bi:
+                        continue
+                    if not [u for u in walk(a) if u["k"] == "CXXOperatorCallExpr" and u.get("op") == "[]" and
+                            nk(X.key(X.call_args(u)[0], f)) == vk and X.key(X.call_args(u)[1], f) == ik]:
+                        continue
+                    key = (f.q.split("<")[0], X.re_strip(vk), X.re_strip(ik))
+                    if key in seen:
+                        continue
+                    seen.add(key)
+                    n += 1
+                    rep.add("C20-R10", "%s|%s[%s]" % key, f.loc(e), "%s: `%s[%s]` and the test `%s < %s.size()` are operands of one `&&`; the test comes %s" % (
+                        f.q, key[1], key[2], key[2], key[1], "first" if bi < ai else "AFTER the subscript"), bi < ai,
+                        detail="one element past the end is written before the loop stops", func=f.q)
+    if n < 1:
+        raise AnalysisBroken("C20-R10: no `&&` chain with a subscript and its bound test found (vector1d::from_simple_string expected)")
+
+
 def run(F, rep, tier):
     r1(F, rep)
     r2(F, rep)
@@ -369,6 +436,7 @@ def run(F, rep, tier):
                        "cvc::collect_gradients() reads fit_gradients under f_ag_fit_gradients and under no other feature "
                        "(a group fitted on itself carries the term too; f_ag_fitting_group only selects which group)")
     r9(F, rep)
+    r10(F, rep)
     self_default(F, rep, "C20-R7")
     from .rules_c13 import unique_rank
     unique_rank(F, rep, "C20-R8")
